@@ -33,5 +33,8 @@ Definition scores_ok (nonneg : bool) (r : cresp) : bool :=
   end%float.
 Definition holds (c : case) : bool :=
   match c with
-  | ComputeReq setup q rc rs _ => scores_ok (local_nonneg setup q) rc && scores_ok (local_nonneg setup q) rs
+  | ComputeReq setup q rc rs _ =>
+      scores_ok (local_nonneg setup q) rc && scores_ok (local_nonneg setup q) rs
+      (* an internal error only where the declarative specification has one (scores that are not finite) *)
+      && match rc with C500 => resp_matches (oapi_spec 1500 default_eps (put_all setup) (to_req q)) C500 | _ => true end
   end.
